@@ -70,7 +70,9 @@ DATA_METHODS = [
     ('as_QRF', 'as_QRF', {}), ('as_QRF_cc', 'as_QRF', {'combine_conjugates': True}),
     ('recip_QRPO', 'recip_QRPO', {}), ('cf_coeffs', 'cf_coeffs', {}),
 ]
-ALL_METHODS = VALUE_METHODS + DATA_METHODS
+# execution order: timeout-prone methods last (an interrupted method taints the rest of its case)
+_LATE = ('simplify', 'simplify_terms', 'simplify_factors', 'ratden')
+ALL_METHODS = ([m for m in VALUE_METHODS if m[0] not in _LATE] + DATA_METHODS + [m for m in VALUE_METHODS if m[0] in _LATE])
 # variants that repeat an expensive computation; quick tier runs them on every third case only
 HEAVY_VARIANTS = ('partfrac_ec', 'as_QRPO_ec', 'as_QRF', 'mixedfrac', 'factored_pairs', 'simplify_terms', 'simplify_factors')
 # which public method a key belongs to (known-finding keys use the public name)
@@ -531,6 +533,9 @@ def fingerprint(c, r, key, k):
             if G.des(m['vals'][k]) == flipped:
                 return '%s delay' % pub
         # repeated complex-conjugate pole pair combined by combine_conjugates
+        if key in ('partfrac_cc', 'as_QRF_cc', 'recippartfrac_cc') and c.get('tags', {}).get('repeated_conjugate_poles'):
+            # generator knowledge: the denominator has a complex-conjugate pole pair of multiplicity >= 2
+            return '%s combine_conjugates repeated-conjugate-poles' % pub
         if key in ('partfrac_cc', 'as_QRF_cc', 'recippartfrac_cc'):
             src = r['m'].get('as_QRPO' if key != 'recippartfrac_cc' else 'recip_QRPO')
             if src and 'P' in src:
